@@ -841,7 +841,7 @@ class _Frame:
                 return obj.T
             if attr in ("shape", "ndim", "size"):
                 return getattr(obj, attr)
-            if attr in ("reshape", "ravel", "flatten", "transpose", "copy", "sum", "mean", "tolist"):
+            if attr in ("reshape", "ravel", "flatten", "transpose", "copy", "sum", "mean", "tolist", "max", "min"):
                 return getattr(obj, attr)
             if attr == "astype":
                 return lambda *a, **k: obj
@@ -1012,6 +1012,13 @@ class _Frame:
                     if args and (v == args[0] or (isinstance(args[0], EnumVal) and args[0].name == k)):
                         return EnumVal(fn, k, v)
                 raise XRaise("ValueError", f"{args[0]!r} is not a valid {fn.name}")
+            if fn.qualname in getattr(self.I, "constructible", ()):
+                # opt-in: plain instantiation (object.__new__ + the class's own __init__)
+                obj = XObj(fn, {})
+                init = self.I.repo.lookup_method(fn, "__init__")
+                if init is not None:
+                    self.I.call_function(init, args, kwargs, self_obj=obj)
+                return obj
             raise self.bad(f"construction of {fn.name} is not modelled", n)
         if callable(fn) and not isinstance(fn, (Opaque,)):
             try:
@@ -1214,7 +1221,15 @@ def _np_cross(a, b, axis=None, **kw):
         if (a.ndim == 2 and a.shape[0] not in (1, n)) or (b.ndim == 2 and b.shape[0] not in (1, n)):
             raise XArrayError("cross: row counts differ")
         return XArray((n, 3), [x for k in range(n) for x in c3(ra(k), rb(k))])
-    raise XArrayError("cross supports 3-vectors and rows of 3-vectors only")
+    if a.shape[-1:] == (3,) and b.shape[-1:] == (3,) and axis in (None, -1):
+        # vectors along the last axis, leading axes broadcast
+        lead = XArray._bshape(a.shape[:-1], b.shape[:-1])
+        A, B = a.broadcast_to(lead + (3,)), b.broadcast_to(lead + (3,))
+        n = 1
+        for x in lead:
+            n *= x
+        return XArray(lead + (3,), [x for k in range(n) for x in c3(A.data[3 * k: 3 * k + 3], B.data[3 * k: 3 * k + 3])])
+    raise XArrayError("cross supports vectors of 3 components along the last axis only")
 
 
 def _np_dot_nd(a, b):
@@ -1250,8 +1265,21 @@ def _np_transpose(a, axes=None):
     return a.transpose(*axes) if axes is not None else a.T
 
 
+def _np_allany(a, f, **kw):
+    if kw:
+        raise AnalysisError("np.all / np.any with keywords is not modelled")
+    if isinstance(a, bool):
+        return a
+    vals = list(XArray.from_nested(a).data) if isinstance(a, (XArray, list, tuple)) else [a]
+    if not all(isinstance(v, bool) for v in vals):
+        raise AnalysisError("np.all / np.any of values that are not decided booleans")
+    return f(vals)
+
+
 def _np_reshape(a, shape, *more):
-    return XArray.from_nested(a).reshape(shape, *more) if not more else XArray.from_nested(a).reshape(shape, *more)
+    if isinstance(shape, XArray):  # an integer array given as the shape
+        shape = tuple(int(exact(v)) for v in shape.data)
+    return XArray.from_nested(a).reshape(shape, *more)
 
 
 def _np_einsum(spec, *ops, **kw):
@@ -1289,6 +1317,23 @@ def _np_linalg_norm(a, axis=None, keepdims=False, **kw):
                 tot = tot + x * x
             out.append(_np_sqrt(tot))
         return XArray((a.shape[0], 1) if keepdims else (a.shape[0],), out)
+    if isinstance(axis, (int, Fraction)) and a.ndim >= 1:
+        # 2-norm along one axis of an N-D array
+        ax = int(axis) % a.ndim
+        perm = [i for i in range(a.ndim) if i != ax] + [ax]
+        m = a.transpose(*perm) if a.ndim > 1 else a
+        n = a.shape[ax]
+        out = []
+        for k in range(0, m.size, n):
+            tot = 0
+            for x in m.data[k:k + n]:
+                tot = tot + x * x
+            out.append(_np_sqrt(tot))
+        shape = tuple(a.shape[i] for i in range(a.ndim) if i != ax)
+        res = XArray(shape, out)
+        if keepdims:
+            res = res.reshape(tuple(1 if i == ax else a.shape[i] for i in range(a.ndim)))
+        return res if shape else out[0]
     raise XArrayError("norm with this axis is not modelled")
 
 
@@ -1388,6 +1433,8 @@ _NP_FUNCS = {
     "ravel": lambda a: XArray.from_nested(a).ravel(),
     "isscalar": lambda x: _is_num(x) or isinstance(x, (bool, str)),
     "where": lambda *a: _np_where(*a),
+    "all": lambda a, **k: _np_allany(a, all, **k),
+    "any": lambda a, **k: _np_allany(a, any, **k),
     "setdiff1d": lambda *a, **k: _np_setdiff1d(*a, **k),
     "diff": lambda a, **k: (lambda v: XArray((max(len(v) - 1, 0),), [v[i + 1] - v[i] for i in range(len(v) - 1)]))(list(XArray.from_nested(a).data)),
     "bincount": lambda x, weights=None, minlength=0: _np_bincount(x, weights, minlength),
@@ -1594,6 +1641,15 @@ def _py_isinstance(obj, cls):
     return False
 
 
+def _py_setattr(o, n, v):
+    if isinstance(o, XObj):
+        o.attrs[n] = v
+    elif getattr(type(o), "_xeval_open", False):
+        setattr(o, n, v)
+    else:
+        raise AnalysisError(f"setattr on {type(o).__name__}")
+
+
 _PY_BUILTINS = {
     "len": _py_len,
     "range": _py_range,
@@ -1609,6 +1665,7 @@ _PY_BUILTINS = {
     "frozenset": frozenset,
     "getattr": lambda o, n, d=None: getattr(o, n, d) if not isinstance(o, (XObj,)) else o.attrs.get(n, d),
     "hasattr": lambda o, n: hasattr(o, n),
+    "setattr": _py_setattr,
     "str": str,
     "slice": slice,
     "bool": bool,
